@@ -312,7 +312,13 @@ def gen_history(rng, nclients, length, reopen=True, ticks=True, lib=True):
             steps.append({"op": "AddVersion", "c": c, "arg": a})
         elif r < 0.40:
             # a client that lost a response sends an earlier accepted (parent, payload) pair once more
-            steps.append({"op": "AddVersion", "c": c, "replay": rng.randint(0, 4), "arg": {"sym": "nil"}})
+            if rng.random() < 0.5:
+                steps.append({"op": "AddVersion", "c": c, "replay": rng.randint(0, 4), "arg": {"sym": "nil"}})
+            else:
+                # ... or the same bytes on another (stale / unknown / nil) parent, then asks for that parent's child
+                a = rng.choice([{"sym": "anc", "of": c, "k": rng.randint(1, 3)}, {"sym": "nil"}, {"sym": "first", "of": c}, arg(c)])
+                steps.append({"op": "AddVersion", "c": c, "replay": rng.randint(0, 2), "payload_only": True, "arg": a})
+                steps.append({"op": "GetChildVersion", "c": c, "arg": a})
         elif r < 0.56:
             steps.append({"op": "GetChildVersion", "c": c, "arg": arg(c)})
         elif r < 0.76:
